@@ -487,11 +487,12 @@ impl Scenario for AllCfg {
                 Op::UpdVault { vault, via_factory: rng.chance(1, 2), fees: fees_opt(rng), flash: if rng.chance(1, 4) { Some(rng.chance(1, 2)) } else { None } }
             }
             22 => Op::HandoverVault { vault: rng.idx(self.vaults.len().max(1)) },
-            23 => Op::InstDistributor { grace: *rng.pick(&[0u64, 1, 2, 10, 29, 30, 31, u64::MAX]), duration: *rng.pick(&[0u64, DAY_NS - 1, DAY_NS, DAY_NS + 1, 7 * DAY_NS, u64::MAX]) },
+            23 => Op::InstDistributor { grace: *rng.pick(&[0u64, 1, 2, 10, 29, 30, 31, u64::MAX, (1 << 32) + 1, (1 << 32) + 30, (1 << 40) + 7, 256 + 5, 65_536 + 5]), duration: *rng.pick(&[0u64, DAY_NS - 1, DAY_NS, DAY_NS + 1, 7 * DAY_NS, u64::MAX]) },
             24..=26 => {
                 let which = rng.idx(self.dists.len().max(1));
                 let cur = self.dists.get(which).and_then(|d| d.grace_seen).unwrap_or(2) as u64;
-                let grace = if rng.chance(3, 4) { Some(*rng.pick(&[0u64, 1, cur.saturating_sub(1), cur, cur.saturating_add(1), 29, 30, 31, u64::MAX])) } else { None };
+                let grace = if rng.chance(3, 4) { // (also values whose low 8 / 16 / 32 bits alone would be in range)
+                    Some(*rng.pick(&[0u64, 1, cur.saturating_sub(1), cur, cur.saturating_add(1), 29, 30, 31, u64::MAX, (1 << 32) + 30, (1 << 32) + cur.max(1), 256 + 30, 65_536 + 30])) } else { None };
                 let duration = if rng.chance(1, 2) { Some(*rng.pick(&[0u64, 1, DAY_NS - 1, DAY_NS, DAY_NS + 1, 2 * DAY_NS, u64::MAX])) } else { None };
                 Op::UpdDistributor { which, grace, duration }
             }
